@@ -41,6 +41,7 @@ require (
 	github.com/peterebden/go-deferred-regex v1.1.0 // indirect
 	github.com/peterebden/tools v0.0.0-20190805132753-b2a0db951d2a // indirect
 	github.com/pkg/xattr v0.4.12 // indirect
+	github.com/please-build/buildtools v0.0.0-20240111140234-77ffe55926d9 // indirect
 	github.com/please-build/gcfg v1.7.0 // indirect
 	github.com/prometheus/client_golang v1.23.2 // indirect
 	github.com/prometheus/client_model v0.6.2 // indirect
@@ -53,6 +54,7 @@ require (
 	github.com/tklauser/go-sysconf v0.4.0 // indirect
 	github.com/tklauser/numcpus v0.12.0 // indirect
 	github.com/zeebo/blake3 v0.2.4 // indirect
+	golang.org/x/exp v0.0.0-20260709172345-9ea1abe57597 // indirect
 	golang.org/x/net v0.57.0 // indirect
 	golang.org/x/oauth2 v0.36.0 // indirect
 	golang.org/x/sync v0.22.0 // indirect
